@@ -81,9 +81,6 @@ func (d *DB) Seed(spec Spec) error {
 			}
 		}
 		for _, n := range gs.Nodes {
-			if n.ID == 0 {
-				return fmt.Errorf("fakedb: seed: node id 0 in graph %q", gs.Name)
-			}
 			if other, dup := nodeIDs[n.ID]; dup {
 				return fmt.Errorf("fakedb: seed: node id %d used twice (graphs %q and %q)", n.ID, other, gs.Name)
 			}
